@@ -579,6 +579,27 @@ def redSum (xv : Nat → Vec K) : Nat → List (Op K) → Vec K → Vec K
 
 end
 
+/-! ### Round 4: `ComponentProjection` with a LIST index (`pso kind=projl`) -/
+
+section
+variable {K : Type}
+
+/-- `ComponentProjection(space, [i_0, i_1, …])._call(x)` (LIST index): `out = x[self.index].copy()`.
+`x[list]` is a new TUPLE of the same component objects (no buffer is created); `.copy()` copies
+every component, in order, into a new object: the result has the components `s.next + k`. -/
+def compProjListO : List Nat → (Nat → Nat) → St K → St K
+  | [], _, s => s
+  | i :: r, x, s => compProjListO r x (alloc s (s.mem (x i))).2
+
+/-- `ComponentProjection(space, [i_0, …])._call(x, out)`: `out.assign(x[self.index])`, which
+`ProductSpaceElement.assign` does componentwise in order: `out[k].assign(x[i_k])`, starting
+at component `k`. -/
+def compProjListI : List Nat → Nat → (Nat → Nat) → (Nat → Nat) → St K → St K
+  | [], _, _, _, s => s
+  | i :: r, k, x, y, s => compProjListI r (k + 1) x y (s.write (y k) (s.mem (x i)))
+
+end
+
 /-! ### Leaves built from the straight-line programs of `ProxProg` -/
 
 /-- Local view of the store for a program body: buffer 0 is `x`, buffer 1 is `out` (when
